@@ -6,4 +6,6 @@ CONSTANTS
   Shape = "reseed"
 INVARIANT StreamIsolation
 INVARIANT NoClock
+INVARIANT WordPrivate
+INVARIANT EqualsSequential
 CHECK_DEADLOCK FALSE
